@@ -33,6 +33,9 @@ pub struct Case {
     /// plain, and with a not-ready result before every chunk)
     #[serde(default)]
     pub all_compositions: u8,
+    /// every second poll of the async side runs on a fresh OS thread (task migration)
+    #[serde(default)]
+    pub migrate: bool,
 }
 
 #[derive(Clone, Copy)]
@@ -130,7 +133,7 @@ impl Prop for C05 {
             None
         };
         let all_compositions = if sweep { if tier == Tier::Thorough { 17 } else { 14 } } else { 0 };
-        Case { stream, payload, parts: rng.chance(1, 3), spec: SourceSpec { trace, fault }, style: STYLES[style].to_string(), damage: damage_fired, all_compositions }
+        Case { stream, payload, parts: rng.chance(1, 3), spec: SourceSpec { trace, fault }, style: STYLES[style].to_string(), damage: damage_fired, all_compositions, migrate: !sweep && rng.chance(1, 8) }
     }
 
     fn run(&self, case: &Case, record: bool) -> RunReport {
@@ -219,7 +222,10 @@ impl Prop for C05 {
         src_a.set_track(true);
         let mode_a = if case.parts { Mode::AsyncParts } else { Mode::AsyncParse };
         let max_polls = case.spec.trace.len() as u64 * 3 + data.len() as u64 * 2 + 64;
+        crate::exec::MIGRATE.with(|m| m.set(case.migrate));
         let a = run_parser(&core_a, &src_a, mode_a, max_polls, true, &[], cap);
+        crate::exec::MIGRATE.with(|m| m.set(false));
+        rep.count("executor_polls_on_a_fresh_thread", a.exec.migrated_polls);
 
         rep.count(if case.parts { "entry_parse_parts" } else { "entry_parse" }, 1);
         rep.count(&format!("style_{}", case.style), 1);
@@ -304,6 +310,9 @@ impl Prop for C05 {
         }
         if c.spec.fault.is_some() {
             out.push(Case { spec: SourceSpec { trace: c.spec.trace.clone(), fault: None }, ..c.clone() });
+        }
+        if c.migrate {
+            out.push(Case { migrate: false, ..c.clone() });
         }
         for payload in shrink_payload(&c.payload) {
             out.push(Case { payload, ..c.clone() });
